@@ -26,6 +26,16 @@ UPPER = Function("UPPER", Str, Str)            # s.upper()
 SEP = Function("SEP", R, Str)                  # node.separator (class attribute of the node class, non-empty)
 ROOT = Function("ROOT", R, R)                  # node.root (navigation contract, C04)
 UFn = DeclareSort("UFn")                   # user callback node -> value
+KS = DeclareSort("CacheKey")                 # keys of Resolver._match_cache: (pattern, ignorecase)
+KEY = Function("KEY", Str, B, KS)
+KEYP = Function("KEYP", KS, Str)
+KEYI = Function("KEYI", KS, B)
+RE = DeclareSort("Regex")                    # compiled pattern objects
+COMPILE = Function("COMPILE", Str, I, RE)    # re.compile(pattern, flags)
+MATCHES = Function("MATCHES", RE, Str, B)    # compiled.match(name) is not None
+REESC = Function("REESC", Str, Str)          # re.escape(char)
+IGNORECASE = Const("re_IGNORECASE", I)
+BOR = Function("BOR", I, I, I)               # a | b on ints
 CmpFn = DeclareSort("CmpFn")               # string comparison callback (Resolver.__cmp / Resolver.__match)
 UFn2 = DeclareSort("UFn2")                 # user callback (node, child) -> value
 appU = Function("appU", UFn, R, U)
@@ -34,7 +44,9 @@ SPACES = Function("SPACES", I, Str)        # ' ' * n
 ESC = Function("ESC", Str, Str)            # escaping of '"' and '\' (contract of esc(), relative to re.sub)
 OFSTR = Function("OFSTR", Str, U)          # a str object seen as arbitrary value
 HEXS = Function("HEXS", I, Str)            # hex(n)
-TEXT_AXIOMS = [ISNONE(NONE_U)]
+_kp, _ki, _bi = String("kp_ax"), Const("ki_ax", B), Int("bi_ax")
+from z3 import ForAll as _FA
+TEXT_AXIOMS = [ISNONE(NONE_U), _FA([_kp, _ki], And(KEYP(KEY(_kp, _ki)) == _kp, KEYI(KEY(_kp, _ki)) == _ki)), _FA([_bi], BOR(0, _bi) == _bi)]
 _s = String("s_ax")
 
 
@@ -110,6 +122,8 @@ class TextExec(SeqExec):
             yield p, V("builtin", name)
         elif name in getattr(self.reg, "globals", {}):
             yield p, self.reg.globals[name]
+        elif name == "re":
+            yield p, V("module", "re")
         else:
             yield from SeqExec.global_name(self, name, p)
 
@@ -158,6 +172,8 @@ class TextExec(SeqExec):
     def is_compare(self, l, r, p, e):
         for a, b in ((l, r), (r, l)):
             if b.k == "ref" and b.t is NONE:
+                if a.k == "matchobj":
+                    return Not(a.t)
                 if a.k == "any":
                     return ISNONE(a.t)
                 if a.k in ("optufn", "optseq"):
@@ -187,6 +203,9 @@ class TextExec(SeqExec):
         if isinstance(op, ast.Add) and l.k in ("str", "pystr") and r.k in ("str", "pystr"):
             yield p, vstr(Concat(tostr(l), tostr(r)))
             return
+        if isinstance(op, ast.BitOr) and l.k == "int" and r.k == "int":
+            yield p, vint(BOR(l.t, r.t))
+            return
         if isinstance(op, ast.Mult) and l.k == "pystr" and l.t == " " and r.k == "int":
             yield p, vstr(SPACES(r.t))
             return
@@ -197,6 +216,23 @@ class TextExec(SeqExec):
 
     # ------------------------------------------------------------------ attributes of the object under verification
     def attr_load(self, obj, attr, p, e):
+        if obj.k == "module" and obj.t == "re":
+            if attr == "IGNORECASE":
+                yield p, vint(IGNORECASE)
+            elif attr in ("compile", "escape"):
+                yield p, V("refn", attr)
+            else:
+                raise Unsupported("re.%s" % attr)
+            return
+        if obj.k == "class" and attr == "_match_cache" and "cache" in p.extra:
+            yield p, V("cache", None)
+            return
+        if obj.k == "re" and attr == "match":
+            yield p, V("rematch", obj.t)
+            return
+        if obj.k == "cache" and attr == "clear":
+            yield p, V("cacheclear", None)
+            return
         if obj.k == "ref" and attr == "separator":
             p.assume(Length(SEP(obj.t)) > 0)
             yield p, vstr(SEP(obj.t))
@@ -233,7 +269,24 @@ class TextExec(SeqExec):
             raise Unsupported("attribute .%s of %s object" % (attr, cls))
         yield from SeqExec.attr_load(self, obj, attr, p, e)
 
+    def cache_key(self, key):
+        if key.k == "tuple" and len(key.t) == 2 and key.t[0].k in ("str", "pystr") and key.t[1].k == "bool":
+            return KEY(tostr(key.t[0]), key.t[1].t)
+        raise Unsupported("cache key %r (the contract expects the pair (pattern, ignorecase))" % (key,))
+
     def subscript_load(self, obj, key, p, e):
+        if obj.k == "cache":
+            k = self.cache_key(key)
+            dom, val, n = p.extra["cache"]
+            r = p.fork(Not(Select(dom, k)), "cache:miss")
+            if self.handlers:
+                self.raise_(r, Exc("KeyError", "subscript"))
+            else:
+                self.oblig(p, "SAFE", "key-present", Select(dom, k))
+            p.assume(Select(dom, k))
+            p.trace.append("cache:hit")
+            yield p, V("re", Select(val, k))
+            return
         if obj.k == "iddict" and key.k == "id":
             dom, val = obj.t
             r = p.fork(Not(Select(dom, key.t)), "dict:missing")
@@ -248,6 +301,18 @@ class TextExec(SeqExec):
         yield from SeqExec.subscript_load(self, obj, key, p, e)
 
     def assign(self, tgt, v, p, aug=False):
+        if isinstance(tgt, ast.Subscript) and isinstance(tgt.value, ast.Attribute) and tgt.value.attr == "_match_cache" \
+                and "cache" in p.extra:
+            out = []
+            for q, key in self.ev(tgt.slice, p):
+                if v.k != "re":
+                    raise Unsupported("cache store of %r" % (v,))
+                k = self.cache_key(key)
+                dom, val, n = q.extra["cache"]
+                q.extra["cache"] = (Store(dom, k, True), Store(val, k, v.t), n + If(Select(dom, k), 0, 1))
+                q.trace.append("cache:store")
+                out.append(q)
+            return out
         # self.<dictfield>[id] = int   (identifier table of the exporters)
         if isinstance(tgt, ast.Subscript) and isinstance(tgt.value, ast.Attribute) and isinstance(tgt.value.value, ast.Name) \
                 and tgt.value.value.id in p.env and p.env[tgt.value.value.id].k == "obj":
@@ -290,6 +355,12 @@ class TextExec(SeqExec):
             sq = IterSeq(Length(s), lambda i: V("any", s[i]), desc="useq")
             sq.term, sq.elem = s, "any"
             return sq
+        if v.k in ("str", "pystr"):
+            from z3 import SubString
+            s = tostr(v)
+            sq = IterSeq(Length(s), lambda i: vstr(SubString(s, i, 1)), desc="characters")
+            sq.term, sq.elem = s, "char"
+            return sq
         if v.k == "qseq" and (v.x or {}).get("elem") == "str":
             s = v.t
             sq = IterSeq(Length(s), lambda i: vstr(s[i]), desc="strings")
@@ -318,6 +389,24 @@ class TextExec(SeqExec):
                 yield p, V("qseq", sp, {"elem": "str"})
             else:
                 raise Unsupported("str.%s" % m)
+            return
+        if fv.k == "refn":
+            if fv.t == "escape" and len(pos) == 1:
+                yield p, vstr(REESC(tostr(pos[0])))
+            elif fv.t == "compile" and len(pos) >= 1:
+                fl = pos[1].t if len(pos) > 1 else (kw["flags"].t if "flags" in kw else IntVal(0))
+                yield p, V("re", COMPILE(tostr(pos[0]), fl))
+            else:
+                raise Unsupported("re.%s call" % fv.t)
+            return
+        if fv.k == "rematch":
+            yield p, V("matchobj", MATCHES(fv.t, tostr(pos[0])))
+            return
+        if fv.k == "cacheclear":
+            dom, val, n = p.extra["cache"]
+            p.extra["cache"] = (K(KS, False), val, IntVal(0))
+            p.trace.append("cache:clear")
+            yield p, VNONE
             return
         if fv.k == "cmpfn":
             if len(pos) != 2:
@@ -393,6 +482,12 @@ class TextExec(SeqExec):
         return SeqExec.coerce(self, v, kind, p)
 
     def builtin2(self, name, pos, kw, p, e):
+        if name == "len" and pos and pos[0].k == "cache":
+            yield p, vint(p.extra["cache"][2])
+            return
+        if name == "len" and pos and pos[0].k in ("str", "pystr"):
+            yield p, vint(Length(tostr(pos[0])))
+            return
         if name == "getattr" and len(pos) == 3 and pos[0].k == "ref":
             nm = toany(pos[1])
             d = toany(pos[2])
@@ -468,8 +563,12 @@ class TextExec(SeqExec):
         return SeqExec.fresh_of_kind(self, kind, name)
 
     def fresh_like(self, v, name):
-        if v.k in ("ufn", "ufn2", "optufn", "optufn2", "optseq", "useq", "pystr", "iddict", "counter", "id"):
+        if v.k in ("ufn", "ufn2", "optufn", "optufn2", "optseq", "useq", "iddict", "counter", "id", "cmpfn", "module", "refn"):
             return v
+        if v.k == "pystr":
+            return self.fresh_of_kind("str", name)
+        if v.k == "re":
+            return V("re", fresh_const(name, RE))
         if v.k in ("str", "any"):
             return self.fresh_of_kind(v.k, name)
         return SeqExec.fresh_like(self, v, name)
